@@ -59,23 +59,26 @@ Definition with_params n p := mkNode (m_custom n) p (m_bufs n) (m_attrs n) (m_su
 Definition with_bufs n b := mkNode (m_custom n) (m_params n) b (m_attrs n) (m_subs n).
 Definition with_attrs n a := mkNode (m_custom n) (m_params n) (m_bufs n) a (m_subs n).
 
-Record tstate := mkSt { t_heap : heap; t_vals : list (Z * Z); t_next : Z }.
+(* t_saved: memo["inplace"] of the current public to_module call (repair of D134): id(out) -> the clone taken the first
+   time the object was overwritten in place *)
+Record tstate := mkSt { t_heap : heap; t_vals : list (Z * Z); t_next : Z; t_saved : list (Z * obj) }.
 
 Definition FRESH_BASE : Z := 1000000.
 
-Definition st_heap st h := mkSt h (t_vals st) (t_next st).
+Definition st_heap st h := mkSt h (t_vals st) (t_next st) (t_saved st).
+Definition clear_saved st := mkSt (t_heap st) (t_vals st) (t_next st) [].
 Definition val_of (st : tstate) (o : obj) : option Z := z_get (t_vals st) (ostor o).
 
 (* a new tensor object *)
 Definition fresh_clone (st : tstate) (o : obj) : obj * tstate :=
   let c := mkObj (t_next st) KPlain (t_next st) in     (* x.clone(): plain tensor, own storage, same content *)
   let vals := match val_of st o with Some v => z_set (t_vals st) (ostor c) v | None => t_vals st end in
-  (c, mkSt (t_heap st) vals (t_next st + 1)%Z).
+  (c, mkSt (t_heap st) vals (t_next st + 1)%Z (t_saved st)).
 Definition fresh_wrap (st : tstate) (k : okind) (o : obj) : obj * tstate :=
-  (mkObj (t_next st) k (ostor o), mkSt (t_heap st) (t_vals st) (t_next st + 1)%Z).  (* nn.Parameter(x) / Buffer(x): shares x's storage *)
+  (mkObj (t_next st) k (ostor o), mkSt (t_heap st) (t_vals st) (t_next st + 1)%Z (t_saved st)).  (* nn.Parameter(x) / Buffer(x): shares x's storage *)
 Definition copy_into (st : tstate) (dst src : obj) : tstate :=     (* dst.data.copy_(src.data) *)
   match val_of st src with
-  | Some v => mkSt (t_heap st) (z_set (t_vals st) (ostor dst) v) (t_next st)
+  | Some v => mkSt (t_heap st) (z_set (t_vals st) (ostor dst) v) (t_next st) (t_saved st)
   | None => st
   end.
 
@@ -89,8 +92,16 @@ Inductive exn := EInject | EInjectBase | EKeyError | ETypeError | EAttrError | E
 Definition is_Exception (e : exn) : bool := match e with EInjectBase => false | _ => true end.
 
 (* ------------------------------------------------------------------ _set_tensor_dict (_td.py:4602) *)
-(* result: the node afterwards, and Some out / None when __dict__.pop(name) raised KeyError *)
-Definition set_tensor_dict (n : mnode) (name : string) (tensor : obj) (inplace : bool) (st : tstate)
+(* result: the node afterwards, and Some out / None when __dict__.pop(name) raised KeyError.
+   Switches (true = the code after the fix: commit; false = the behaviour that was found, kept as a witness):
+   f131  a value popped from _buffers goes back into _buffers whatever its class (before: an nn.Parameter given for a
+         buffer name went to _parameters, and on the way back the buffer, found nowhere in _buffers, ended in __dict__)
+   f134  in-place path: an object overwritten a second time in one to_module call (tied under two names) keeps the
+         clone saved the first time (before: a clone of the current content, i.e. of the first supplied value) *)
+Definition save_clone (st : tstate) (o c : obj) : tstate :=
+  mkSt (t_heap st) (t_vals st) (t_next st) (z_set (t_saved st) (oid o) c).
+
+Definition set_tensor_dict_gen (f131 f134 : bool) (n : mnode) (name : string) (tensor : obj) (inplace : bool) (st : tstate)
   : mnode * option obj * tstate :=
   (* out = _parameters.pop(name, None) *)
   let po := d_get (m_params n) name in
@@ -115,15 +126,25 @@ Definition set_tensor_dict (n : mnode) (name : string) (tensor : obj) (inplace :
   | Some (out, n3) =>
       let '(tensor', out', st') :=
         if inplace then
-          let '(c, st1) := fresh_clone st out in                (* out_tmp = out.clone() *)
-          (out, c, copy_into st1 out tensor)                    (* out.data.copy_(tensor.data); tensor, out = out, out_tmp *)
+          match (if f134 then z_get (t_saved st) (oid out) else None) with
+          | Some c => (out, c, copy_into st out tensor)          (* id(out) in saved: out_tmp = saved[id(out)] *)
+          | None =>
+              let '(c, st1) := fresh_clone st out in            (* out_tmp = out.clone() *)
+              let st1' := if f134 then save_clone st1 out c else st1 in
+              (out, c, copy_into st1' out tensor)               (* out.data.copy_(tensor.data); tensor, out = out, out_tmp *)
+          end
         else (tensor, out, st) in
       let n4 :=
-        if is_param tensor' then with_params n3 (d_set (m_params n3) name (Some tensor'))
+        if f131 && was_buffer then with_bufs n3 (d_set (m_bufs n3) name (Some tensor'))
+        else if is_param tensor' then with_params n3 (d_set (m_params n3) name (Some tensor'))
         else if was_buffer then with_bufs n3 (d_set (m_bufs n3) name (Some tensor'))
         else with_attrs n3 (d_set (m_attrs n3) name tensor') in
       (n4, Some out', st')
   end.
+
+Definition fixed_D131 : bool := true.
+Definition fixed_D134 : bool := true.
+Definition set_tensor_dict := set_tensor_dict_gen fixed_D131 fixed_D134.
 
 (* ------------------------------------------------------------------ torch's swap_tensor (custom __setattr__ path) *)
 Inductive swapres := SwOk (n : mnode) (orig : option obj) | SwErr (e : exn).
@@ -295,8 +316,8 @@ Fixpoint to_mod (cfg : tmcfg) (t : ptd) (m : Z) (st : tstate) (memo : memo_t) {s
     end
   end.
 
-(* the public to_module: a fresh memo per call *)
-Definition to_module (cfg : tmcfg) (t : ptd) (m : Z) (st : tstate) : tmres := to_mod cfg t m st [].
+(* the public to_module: a fresh memo per call (module -> swap, and the in-place clones) *)
+Definition to_module (cfg : tmcfg) (t : ptd) (m : Z) (st : tstate) : tmres := to_mod cfg t m (clear_saved st) [].
 
 (* ------------------------------------------------------------------ _quick_set (closure in _to_module) *)
 Definition p_get (t : ptd) (k : string) : option pent := d_get (p_ents t) k.
